@@ -160,6 +160,12 @@ bool Units::UnitsImpl::isBaseUnitWithHistory(History &history, const UnitsConstP
 
 bool Units::UnitsImpl::performTestWithHistory(History &history, const UnitsConstPtr &units, TestType type) const
 {
+    std::vector<const Units *> unitsBeingTested;
+    return performTestWithHistory(history, units, type, unitsBeingTested);
+}
+
+bool Units::UnitsImpl::performTestWithHistory(History &history, const UnitsConstPtr &units, TestType type, std::vector<const Units *> &unitsBeingTested) const
+{
     ModelPtr model;
     if (mUnits->isImport()) {
         model = mUnits->importSource()->model();
@@ -179,11 +185,19 @@ bool Units::UnitsImpl::performTestWithHistory(History &history, const UnitsConst
 
         history.push_back(h);
 
-        return importedUnits->pFunc()->performTestWithHistory(history, importedUnits, type);
+        return importedUnits->pFunc()->performTestWithHistory(history, importedUnits, type, unitsBeingTested);
     }
 
+    // Units that (directly or indirectly) refer to themselves have nothing
+    // further to resolve, but they are not defined.
+    if (std::find(unitsBeingTested.begin(), unitsBeingTested.end(), mUnits) != unitsBeingTested.end()) {
+        return type == TestType::RESOLVED;
+    }
+    unitsBeingTested.push_back(mUnits);
+
+    bool result = true;
     model = std::dynamic_pointer_cast<libcellml::Model>(mUnits->parent());
-    for (size_t unitIndex = 0; unitIndex < mUnits->unitCount(); ++unitIndex) {
+    for (size_t unitIndex = 0; result && (unitIndex < mUnits->unitCount()); ++unitIndex) {
         std::string reference = mUnits->unitAttributeReference(unitIndex);
         if (isStandardUnitName(reference)) {
             continue;
@@ -192,18 +206,20 @@ bool Units::UnitsImpl::performTestWithHistory(History &history, const UnitsConst
         if (model != nullptr) {
             auto childUnits = model->units(reference);
             if (childUnits != nullptr) {
-                if (!childUnits->pFunc()->performTestWithHistory(history, childUnits, type)) {
-                    return false;
+                if (!childUnits->pFunc()->performTestWithHistory(history, childUnits, type, unitsBeingTested)) {
+                    result = false;
                 }
             } else if (type == TestType::DEFINED) {
-                return false;
+                result = false;
             }
         } else if (type == TestType::DEFINED) {
-            return false;
+            result = false;
         }
     }
 
-    return true;
+    unitsBeingTested.pop_back();
+
+    return result;
 }
 
 /**
